@@ -103,6 +103,15 @@ pub struct Scn {
     /// "wildcard" | "list" | "none" | "nested"
     pub cors: String,
     pub clients: Vec<Client>,
+    /// the application's error handler (`with_error_handler`): "" = Humphrey's default pages,
+    /// "empty" = a handler that answers errors with an empty body (`Response::empty(status)`)
+    #[serde(default)]
+    pub error_pages: String,
+}
+
+/// An error handler whose pages have no body.
+pub fn empty_error_pages(status: humphrey::http::StatusCode) -> humphrey::http::Response {
+    humphrey::http::Response::empty(status)
 }
 
 pub const MALFORMED: [&str; 7] = ["bad-method", "no-target", "no-version", "no-colon", "bad-cl", "neg-cl", "bad-utf8"];
@@ -234,7 +243,10 @@ pub fn expectations(scn: &Scn, c: &Client) -> Vec<Expect> {
             }
             None => {}
         }
-        let (status, body, routed, cors) = route_model(r);
+        let (status, mut body, routed, cors) = route_model(r);
+        if !routed && scn.error_pages == "empty" {
+            body.clear();
+        }
         if r.method == "OPTIONS" {
             if routed {
                 out.push(Expect::Normal { status: 204, body: vec![], options: true, routed, cors, keep: keep_alive(r) });
@@ -269,8 +281,9 @@ pub struct HState {
 }
 
 #[cfg(not(feature = "tk"))]
-pub fn build_app(threads: usize, timeout_ms: Option<u64>, cors: &str) -> (App<HState>, Arc<HState>) {
+pub fn build_app(threads: usize, timeout_ms: Option<u64>, cors: &str, error_pages: &str) -> (App<HState>, Arc<HState>) {
     let app: App<HState> = App::new_with_config(threads.clamp(1, 8), HState { log: Mutex::new(Vec::new()) });
+    let app = if error_pages == "empty" { app.with_error_handler(empty_error_pages) } else { app };
     let st = app.get_state();
     fn note(req: &Request, st: &Arc<HState>) {
         st.log.lock().unwrap().push(HandlerEv {
@@ -960,7 +973,7 @@ impl Prop for C01 {
         }
     }
     fn rule(&self) -> &'static str {
-        "One case = a generated application configuration (pool 1..4 threads, connection timeout none / 1..30 s, CORS wildcard / list / list whose entries are substrings of earlier ones / none) plus 1..4 (thorough 1..8) client scripts of 1..6 requests over 5 methods x 9 targets (bodies of 0, 7, 9, 20 000 and 150 000 bytes, an echo, a handler that takes 30 virtual ms, a panicking handler, an unrouted path) x 2 versions x Connection variants x bodies 0..9000 bytes x malformed kinds x idle gaps, an explicit segmentation (cut offsets + inter-segment gap) of the client byte stream, lock-step or streamed pacing (one lock-step client in five has a small window, a 20 000- or 150 000-byte response among its requests and does not read for longer than the connection timeout while the server is blocked writing it), an ending (close / half-close / wait / RST) optional truncation of the last request, and for one client in three a follow-up connection with one plain request after the first connection has ended, all under one seeded schedule and seeded network knobs (short reads/writes, default segmentation, tiny windows, latency). Distinct = distinct history shape: per client the sequence of (method, target kind, well-formedness, pacing, number of segments, statuses received, how the connection ended). Non-trivial = at least two requests on one connection or two overlapping connections, and at least one cut inside a request."
+        "One case = a generated application configuration (pool 1..4 threads, connection timeout none / 1..30 s, CORS wildcard / list / list whose entries are substrings of earlier ones / none, error pages default / from an error handler that returns an empty body) plus 1..4 (thorough 1..8) client scripts of 1..6 requests over 5 methods x 9 targets (bodies of 0, 7, 9, 20 000 and 150 000 bytes, an echo, a handler that takes 30 virtual ms, a panicking handler, an unrouted path) x 2 versions x Connection variants x bodies 0..9000 bytes x malformed kinds x idle gaps, an explicit segmentation (cut offsets + inter-segment gap) of the client byte stream, lock-step or streamed pacing (one lock-step client in five has a small window, a 20 000- or 150 000-byte response among its requests and does not read for longer than the connection timeout while the server is blocked writing it), an ending (close / half-close / wait / RST) optional truncation of the last request, and for one client in three a follow-up connection with one plain request after the first connection has ended, all under one seeded schedule and seeded network knobs (short reads/writes, default segmentation, tiny windows, latency). Distinct = distinct history shape: per client the sequence of (method, target kind, well-formedness, pacing, number of segments, statuses received, how the connection ended). Non-trivial = at least two requests on one connection or two overlapping connections, and at least one cut inside a request."
     }
     fn assumptions(&self) -> Vec<String> {
         vec![
@@ -973,7 +986,7 @@ impl Prop for C01 {
         ]
     }
     fn expected_counters(&self) -> Vec<&'static str> {
-        vec!["c01.requests", "c01.reader_stalls_past_timeout_on_large_response", "c01.clients_streamed", "c01.follow_up_connections", "c01.clients_lockstep", "c01.two_requests_share_segment", "c01.cut_inside_request", "c01.malformed", "c01.lenient", "c01.idle_past_timeout", "c01.panic_requests", "c01.truncated_last", "c01.rst_ending", "net.short_read", "net.window_full", "net.segmented_write"]
+        vec!["c01.requests", "c01.error_handler_with_empty_pages", "c01.reader_stalls_past_timeout_on_large_response", "c01.clients_streamed", "c01.follow_up_connections", "c01.clients_lockstep", "c01.two_requests_share_segment", "c01.cut_inside_request", "c01.malformed", "c01.lenient", "c01.idle_past_timeout", "c01.panic_requests", "c01.truncated_last", "c01.rst_ending", "net.short_read", "net.window_full", "net.segmented_write"]
     }
     fn real_vs_stub(&self) -> (Vec<&'static str>, Vec<&'static str>) {
         (
@@ -996,7 +1009,7 @@ impl Prop for C01 {
         // the server-side receive window always holds a whole client script (a real kernel buffer
         // does); slow readers are modelled on the client side (`window`)
         sim.rx_capacity = None;
-        let scn = Scn { sim, threads: rng.range(1, 4) as usize, timeout_ms, cors: ["wildcard", "list", "none", "nested"][rng.usize_below(4)].to_string(), clients };
+        let scn = Scn { sim, threads: rng.range(1, 4) as usize, timeout_ms, cors: ["wildcard", "list", "none", "nested"][rng.usize_below(4)].to_string(), clients, error_pages: if Rng::new(humsim::rng::mix(&[run_seed(seed, "C01", idx), 0xC01_0006])).chance(1, 4) { "empty".into() } else { String::new() } };
         serde_json::to_value(scn).unwrap()
     }
 
@@ -1017,7 +1030,7 @@ impl Prop for C01 {
         let outcome = sim::run(scn.sim.to_config(), move || {
             // every connection gets a worker: with fewer workers than open connections a
             // response is not owed until another connection ends (queueing is C08/C20's subject)
-            let (app, st) = build_app(scn2.threads.max(scn2.clients.len()), scn2.timeout_ms, &scn2.cors);
+            let (app, st) = build_app(scn2.threads.max(scn2.clients.len()), scn2.timeout_ms, &scn2.cors, &scn2.error_pages);
             *hstate2.lock().unwrap() = Some(st);
             humsim::thread::spawn(move || {
                 let _ = app.run(addr);
@@ -1047,6 +1060,9 @@ impl Prop for C01 {
             let o = outs[cid].lock().unwrap().clone();
             // probes
             rr.count("c01.requests", c.reqs.len() as u64);
+            if scn.error_pages == "empty" && c.reqs.iter().any(|r| route_model(r).0 == 404) {
+                rr.count("c01.error_handler_with_empty_pages", 1);
+            }
             rr.count(if c.mode == "streamed" { "c01.clients_streamed" } else { "c01.clients_lockstep" }, 1);
             if c.mode == "lockstep" && c.stall_reads_ms > 0 && c.window.map(|w| w <= 1024).unwrap_or(false) && c.reqs.iter().any(|r| r.path == "/huge" || r.path == "/big") {
                 rr.count("c01.reader_stalls_past_timeout_on_large_response", 1);
